@@ -1,8 +1,8 @@
 package main
 
 import (
-	"go/types"
 	"fmt"
+	"go/types"
 	"regexp"
 	"strings"
 
